@@ -29,7 +29,7 @@ PROP = {  # commit subject keyword -> property
     "operand named nan/inf": "C15", "name starting with an underscore were merged": "C15", "an alignment of 0 set through": "C15",
     "NEON listing claimed 256-bit alignment": "C12", "skipped the sixteenth temporary": "C14", "took any text as the number of a directive": "C14",
     "opcode set handles went stale": "C20", "cmpgtsq rule that emits pcmpgtq on MMX": "C11", "right shift by a constant 0 was emitted": "C12",
-    "negative immediate for ori": "C12", "lost the caller's %ebx": "C10", "destination pointer kept in memory": "C10", "computed the 16.16 position in 32 bits": "C04",
+    "negative immediate for ori": "C12", "local labels of ARM/NEON listings were not unique": "C12", "lost the caller's %ebx": "C10", "destination pointer kept in memory": "C10", "computed the 16.16 position in 32 bits": "C04",
     "prefixed loadX/storeX read and wrote the wrong elements": "C02", "__sync implementation of OrcOnce": "C08",
     "kept the previous code attached": "C05", "emitters wrote past the 64 KiB": "C05", "literal-pool labels were allocated twice": "C05",
     "zero or negative size": "C05", "flag bits reserved for the compiler": "C05",
